@@ -15,12 +15,14 @@ def ChunksAt : List ChunkMeta → Nat → Prop
 
 def chunksSize (cs : List ChunkMeta) : Nat := (cs.map (·.totalCompressed)).sum
 
-/-- row-group metadata describe consecutive byte ranges starting at `start` -/
+/-- row-group metadata describe consecutive byte ranges starting at `start`; `total_compressed_size`
+of a row group is the sum of its chunks' compressed sizes, `total_byte_size` the sum of their
+`total_uncompressed_size` (parquet.thrift; after fix F23) -/
 def GroupsAt : List RgMeta → Nat → Prop
   | [], _ => True
   | g :: gs, start =>
     g.fileOffset = start ∧ ChunksAt g.chunks start ∧ g.totalCompressed = chunksSize g.chunks ∧
-    g.totalByteSize = chunksSize g.chunks ∧ GroupsAt gs (start + g.totalCompressed)
+    g.totalByteSize = chunksUncompressed g.chunks ∧ GroupsAt gs (start + g.totalCompressed)
 
 def groupsSize (gs : List RgMeta) : Nat := (gs.map (·.totalCompressed)).sum
 
@@ -57,7 +59,7 @@ theorem finalizeCols_layout (D : Deps) (w : W) : ∀ (cols : List Col) (cws : Li
 
 theorem groupsAt_append (gs : List RgMeta) (g : RgMeta) (start : Nat) (h : GroupsAt gs start)
     (hg : g.fileOffset = start + groupsSize gs ∧ ChunksAt g.chunks (start + groupsSize gs) ∧
-          g.totalCompressed = chunksSize g.chunks ∧ g.totalByteSize = chunksSize g.chunks) :
+          g.totalCompressed = chunksSize g.chunks ∧ g.totalByteSize = chunksUncompressed g.chunks) :
     GroupsAt (gs ++ [g]) start := by
   induction gs generalizing start with
   | nil => simpa [GroupsAt, groupsSize] using hg
